@@ -354,12 +354,29 @@ EvStream(e) ==
              \* business): only calls up to and including the first panic are compared
              live  == \A j \in 1 .. Len(api.st1) : j < e.call => ~api.st1[j].pan
              v == IF ~live THEN {} ELSE
-                   L(hdr.seeded /\ ~known, "C07/stream")
-              \cup L(hdr.seeded /\ known /\ api.st1[e.call].draws # e.draws, "C07/stream")
-              \cup L(hdr.seeded /\ known /\ api.st1[e.call].res # e.res, "C07/result")
+                   L(hdr.seeded /\ ~known, e.tag \o "/stream")
+              \cup L(hdr.seeded /\ known /\ api.st1[e.call].draws # e.draws, e.tag \o "/stream")
+              \cup L(hdr.seeded /\ known /\ api.st1[e.call].res # e.res, e.tag \o "/result")
          IN /\ Report(v)
             /\ nviol' = nviol + Cardinality(v)
             /\ UNCHANGED <<hdr, trees, acc, api>>
+
+(***************************************************************************)
+(* Python bindings (C19, C20): besides the stream comparison above (tag     *)
+(* C19: Rust core vs Python API; tag C20: callbacks that fail vs callbacks  *)
+(* that answer False at the same calls) - PRM soundness w.r.t. the Python   *)
+(* callbacks, no path through a state on which a callback failed, wrapper   *)
+(* values equal to the core's.                                              *)
+(***************************************************************************)
+EvPy(e) ==
+  LET v == CASE e.ev = "pyprm" ->
+                  L(~e.start_ok, "C19/prm-start") \cup L(~e.goal_ok, "C19/prm-goal")
+                  \cup L(~e.valid_ok, "C19/prm-valid") \cup L(~e.radius_ok, "C19/prm-radius")
+             [] e.ev = "pyfault" -> L(e.hit, "C20/path-avoids-faults") \cup L(~e.twin_same_kind, "C20/result-kind")
+             [] e.ev = "pywrap" -> L(~e.same, "C19/wrapper[" \o e.kind \o "]")
+  IN /\ Report(v)
+     /\ nviol' = nviol + Cardinality(v)
+     /\ UNCHANGED <<hdr, trees, acc, api>>
 
 (***************************************************************************)
 (* C17: RRT* against plain RRT on the same seed, problem and budget.       *)
@@ -390,6 +407,7 @@ Next ==
          [] e.ev = "query" -> EvQuery(e)
          [] e.ev = "stream" -> EvStream(e)
          [] e.ev = "pair" -> EvPair(e)
+         [] e.ev \in {"pyprm", "pyfault", "pywrap"} -> EvPy(e)
 
 Spec == Init /\ [][Next]_mvars
 
